@@ -100,7 +100,44 @@ def wordRemoveTag : Prog :=
 def wordGetTag : Prog :=
   .pop fun key => .pop fun x => .push ((x.getTag key).getD .nil) .done
 
+/-! ### the formatting words (`^hex ^dec ^oct ^bin fmt/prefix fmt/tags fmt/upcase`, src/state.rs `update_fmt_*`):
+they change the `#fmt` tag of the value on top and nothing else -/
+
+def fmtKey : Cell := .str "#fmt".toList
+
+/-- `State::parse_fmt_flags(..).unwrap_or_default()`: the raw flag word of the `#fmt` tag when it is a usize, masked to
+    the defined bits (`FmtFlags::from_raw`), else the default `10 | PREFIX` -/
+def fmtRaw (c : Cell) : Nat :=
+  match c.getTag fmtKey with
+  | some f =>
+    match f.toUsize with
+    | .ok n => n % 4096
+    | _ => 266
+  | none => 266
+
+/-- `flags` with bit `k` set / cleared -/
+def setFlagBit (flags k : Nat) (t : Bool) : Nat :=
+  if t then (if flags.testBit k then flags else flags + 2 ^ k)
+  else (if flags.testBit k then flags - 2 ^ k else flags)
+
+/-- `update_fmt_flags`: the value on top gets the tag, every other tag stays (`Cell::insert_tag`) -/
+def putFmt (flags : Nat) : Prog := .pop fun v => .push (v.insertTag fmtKey (.int (flags : Nat))) .done
+
+/-- `<fmt-base>` ( x n -- x' ) -/
+def wordFmtBase : Prog :=
+  .pop fun nc => ofOutcome nc.toUsize fun n => .top fun v =>
+    if fmtRaw v % 256 ≠ n then putFmt (fmtRaw v - fmtRaw v % 256 + n % 256) else .done
+
+/-- `<fmt-prefix>` / `<fmt-tags>` / `<fmt-upcase>` ( x flag -- x' ): bit 8 / 9 / 11 -/
+def wordFmtBit (k : Nat) : Prog :=
+  .pop fun tc => ofOutcome tc.toBool fun t => .top fun v =>
+    if (fmtRaw v).testBit k ≠ t then putFmt (setFlagBit (fmtRaw v) k t) else .done
+
 def tagTable : List (String × Prog) := [
+  ("<fmt-base>", wordFmtBase),
+  ("<fmt-prefix>", wordFmtBit 8),
+  ("<fmt-tags>", wordFmtBit 9),
+  ("<fmt-upcase>", wordFmtBit 11),
   ("tags", wordTags),
   ("with-tags", wordWithTags),
   ("insert-tag", wordInsertTag),
